@@ -11,9 +11,11 @@ ALWAYS = ['line1\nline2', 'cr\r\nlf', 'x\npub mod injected {', 'lone\rcr']
 
 
 # values of NON-string members written as strings: the text is the WHOLE value and starts like a number
-NUM_PAYLOADS = ['1; c19_marker(); 0', '1 + c19_marker()', '2 as u8', '3)] struct X; #[x(', '4 /* open', '5 // slash', '6"quote', '7i64, evil = 1', '-8; x()', '9.5; y()', '0x1f + z()']
+# spellings Rust's float parser accepts that have no literal (`inff64` would be an identifier): always part of the quick sample
+NUM_ALWAYS = ['inf', 'NaN', '-infinity']
+NUM_PAYLOADS = NUM_ALWAYS + ['1; c19_marker(); 0', '1 + c19_marker()', '2 as u8', '3)] struct X; #[x(', '4 /* open', '5 // slash', '6"quote', '7i64, evil = 1', '-8; x()', '9.5; y()', '0x1f + z()']
 # patterns that are valid regular expressions as they stand (inserted unescaped): raw-string / string terminators next to backslashes
-PAT_PAYLOADS = ['\\d"# + c19_marker() + r#"\\d', '\\w"#b', 'a"#b', '\\s"', 'x"##y\\d', '\\d"; c19_marker(); "', 'r#"\\d', '\\\\"#', '\\d\\"#']
+PAT_PAYLOADS = [', code = "x"', ' + c19_marker()', '\\d"# + c19_marker() + r#"\\d', '\\w"#b', 'a"#b', '\\s"', 'x"##y\\d', '\\d"; c19_marker(); "', 'r#"\\d', '\\\\"#', '\\d\\"#']
 
 
 # ---- lexical carriers (K tie `lex.*`): the generator's escaper / doc-line builders and what proc_macro2, prettyplease
@@ -64,6 +66,8 @@ def base_spec_text():
     pet["description"] = "TXT"; pet["title"] = "TXT"
     pet["properties"]["name"].update({"description": "TXT", "default": "TXT", "example": "TXT", "pattern": "TXT"})
     pet["properties"]["kind"] = {"type": "string", "enum": ["cat", "TXT"], "description": "TXT"}
+    # a member named like a Rust keyword (its field is `r#type`): the regex constant is looked up by field name
+    pet["properties"]["type"] = {"type": "string", "pattern": "TXT"}
     pet["properties"]["fixed"] = {"type": "string", "const": "TXT"}
     pet["properties"]["count"] = {"type": "integer", "default": "TXT"}
     pet["properties"]["count32"] = {"type": "integer", "format": "int32", "default": "TXT"}
@@ -123,6 +127,8 @@ POSITIONS = [
     (("components", "schemas", "Pet", "properties", "cfix", "const"), False, "none"),
     (("components", "schemas", "Pet", "properties", "cone", "enum", 0), False, "none"),
     (("paths", "/pets/{id}", "get", "parameters", 1, "schema", "default"), False, "none"),
+    # (appended last so that the indices recorded in corpus / findings stay valid) a keyword-named member with a pattern
+    (("components", "schemas", "Pet", "properties", "type", "pattern"), False, "lit"),
 ]
 # twin positions: (path, carrier, kind) — the inert run keeps the text EQUAL to its twin's, the payload run changes one side
 TWINS = [
@@ -136,6 +142,8 @@ TWINS = [
 ]
 N_TEXT = 18                      # positions [0, N_TEXT) carry text; the rest are non-string members / parameters
 PATTERN_POS = 5
+KW_PATTERN_POS = len(POSITIONS) - 1  # Pet.type.pattern (keyword-named member), a TEXT position
+PATTERN_POSITIONS = (5, KW_PATTERN_POS)
 
 
 def setp(s, path, val):
@@ -209,11 +217,11 @@ def run(ctx):
         ctx.prepare = prepare
         cases = [c for c in vlib_corpus(ctx) if c["op"] == "inject.pair"]      # witnesses of the listed findings first
         for pi in range(len(POSITIONS)):
-            kind = "text" if pi < N_TEXT else "num"
+            kind = "text" if (pi < N_TEXT or pi == KW_PATTERN_POS) else "num"
             pool = PAYLOADS if kind == "text" else NUM_PAYLOADS
-            pays = pool if not ctx.quick else (ALWAYS + r.sample([x for x in pool if x not in ALWAYS], 5) if kind == "text" else r.sample(pool, 3))
+            pays = pool if not ctx.quick else (ALWAYS + r.sample([x for x in pool if x not in ALWAYS], 5) if kind == "text" else NUM_ALWAYS + r.sample([x for x in pool if x not in NUM_ALWAYS], 3))
             plan = [(kind, x) for x in pays]
-            if pi == PATTERN_POS:
+            if pi in PATTERN_POSITIONS:
                 plan += [("rawpat", x) for x in PAT_PAYLOADS]
             for kind, pay in plan:
                 modes = ["client-mod", "server-mod"] if not ctx.quick else [r.choice(["client-mod", "server-mod"])]
